@@ -13,8 +13,14 @@ func (w *World) hostileRecovery(r *Run) string {
 	t := r.T
 	t.Begin("hostile-recovery")
 	defer t.End()
-	kinds := []string{"stale-same-setid", "foreign-set", "flip-in-recovery", "truncate-recovery", "garbage-named-like-volume", "empty-recovery", "flip-in-index"}
+	kinds := []string{"stale-same-setid", "foreign-set", "flip-in-recovery", "truncate-recovery", "garbage-named-like-volume", "empty-recovery", "flip-in-index", "forged-recovery-block"}
 	kind := kinds[t.Draw(len(kinds), "kind")]
+	return w.hostileRecoveryKind(r, kind)
+}
+
+// hostileRecoveryKind applies one given kind of hostile recovery file.
+func (w *World) hostileRecoveryKind(r *Run, kind string) string {
+	t := r.T
 	paths := w.RecoveryPaths()
 	var present []string
 	for _, p := range paths {
@@ -74,6 +80,37 @@ func (w *World) hostileRecovery(r *Run) string {
 		name := fmt.Sprintf("%s.vol%02d+%02d.par2", w.Base, exps[0]+50, len(exps))
 		w.Disk.Put(filepath.Join(w.Dir, name), b)
 		r.Logf("hostile %s: %s exps=%v", kind, name, exps)
+	case "forged-recovery-block":
+		// a recovery packet that is valid by the format's own checks
+		// (framing, packet MD5, set id, exponent) but carries wrong
+		// recovery data: what a buggy or malicious producer, or an old
+		// volume of the same set id, looks like to the reader
+		if len(present) == 0 {
+			return "none"
+		}
+		p := present[t.Draw(len(present), "which")]
+		b, _ := w.Disk.Get(p)
+		pk, _ := ref.ParsePackets(b)
+		var rec []ref.Packet
+		for _, x := range pk {
+			if x.Type == ref.TypeRecvSlic {
+				rec = append(rec, x)
+			}
+		}
+		if len(rec) == 0 {
+			return "none"
+		}
+		x := rec[t.Draw(len(rec), "packet")]
+		body := append([]byte(nil), x.Body...)
+		n := 1 + t.Draw(3, "nbytes")
+		for i := 0; i < n && len(body) > 4; i++ {
+			body[4+t.Draw(len(body)-4, "off")] ^= byte(1 + t.Draw(255, "xor"))
+		}
+		forged := ref.MakePacket(x.SetID, x.Type, body)
+		nb := append(append(append([]byte(nil), b[:x.Offset]...), forged...), b[x.Offset+x.Length:]...)
+		w.Disk.Put(p, nb)
+		r.Logf("hostile forged recovery block in %s", filepath.Base(p))
+		r.Probe("forged-recovery-block")
 	case "foreign-set":
 		other := []ref.Protected{{Name: "foreign.bin", Data: expandContent(ckRandom, t.Draw64(0, "fseed"), 3*w.S+1, w.S)}}
 		set := ref.BuildSet(other, w.S, []int{0, 1}, "foreign")
